@@ -68,11 +68,11 @@ impl RecordsBounds {
         (map_bound(&self.0, map), map_bound(&self.1, map))
     }
 
-    fn namespace_start(namespace: &NamespaceId) -> Bound<RecordsIdOwned> {
+    pub fn namespace_start(namespace: &NamespaceId) -> Bound<RecordsIdOwned> {
         Bound::Included((namespace.to_bytes(), [0u8; 32], Bytes::new()))
     }
 
-    fn namespace_end(namespace: &NamespaceId) -> Bound<RecordsIdOwned> {
+    pub fn namespace_end(namespace: &NamespaceId) -> Bound<RecordsIdOwned> {
         let mut ns_end = namespace.to_bytes();
         if increment_by_one(&mut ns_end) {
             Bound::Excluded((ns_end, [0u8; 32], Bytes::new()))
